@@ -78,7 +78,9 @@ func (c *Consistent) pick(sessions *sync.Map, key string) getty.Session {
 
 	if session.IsClosed() {
 		go c.refreshHashCircle(sessions)
-		return c.firstKey()
+		// the ring is stale: its first entry may be closed as well, so fall back to a policy
+		// that only hands out sessions it has just seen open
+		return RandomLoadBalance(sessions, key)
 	}
 
 	return session
